@@ -34,6 +34,7 @@ type Contract struct {
 	Mode       Mode
 	Tags       string // extra build tags the body must be loaded with ("" or "purego")
 	Requires   []*Clause
+	Axiomatize []*Clause // definitional axioms of uninterpreted spec functions, assumed at entry (listed as assumptions)
 	Ensures    []*Clause
 	Invariants []*Clause
 	Decreases  []*Clause
@@ -341,6 +342,12 @@ func ParseContractFile(path, pkg string) (*ContractFile, error) {
 				cur.Mode = parseMode(rest)
 			case "tags":
 				cur.Tags = rest
+			case "axiomatize":
+				c, err := mkClause(word, false)
+				if err != nil {
+					return nil, err
+				}
+				cur.Axiomatize = append(cur.Axiomatize, c)
 			case "requires", "ensures", "modifies":
 				if word == "modifies" && rest == "*" {
 					cur.ModAll = true
@@ -418,6 +425,20 @@ func ParseContractFile(path, pkg string) (*ContractFile, error) {
 				c.E = e
 				c.Kind = "assert:" + m[1]
 				cur.Asserts = append(cur.Asserts, c)
+			case "keepsall":
+				// regions (over the parameters) that no unmodelled callee changes (assumption)
+				for _, es := range strings.Split(rest, ";") {
+					es = strings.TrimSpace(es)
+					if es == "" {
+						continue
+					}
+					e, err := ParseExpr(es)
+					if err != nil {
+						return nil, fail(i, "%v", err)
+					}
+					cur.CallKeeps["*"] = append(cur.CallKeeps["*"], e)
+					cur.CallKeepSrc["*"] = append(cur.CallKeepSrc["*"], es)
+				}
 			case "callkeeps":
 				name, exprs, _ := strings.Cut(rest, " ")
 				for _, es := range strings.Split(exprs, ";") {
